@@ -116,8 +116,9 @@ class Machine:
         loader.load(program)
         self._routines = loader.get_routines()
         self._program = loader.get_code()
-        self._keep_running = True
 
+        # _keep_running was set by reset(). It must not be set again here: a
+        # stop request may already have arrived.
         logging.debug('Starting to execute.')
         self._clock.start()
         program_len = len(self._program)
